@@ -20,7 +20,10 @@ RULE = ("cases = (prior environment, sequence of 1-6 envPrepend/envAppend/envSet
         "${PRODUCTS} ${<NAME>_DIR} ${PRODUCT_FLAVOR/NAME/VERSION} ${UPS_DIR} over products with/without directory, flavor, "
         "extra directory) and delimiters (: ; , space | - :: . + * ?); a third of the cases carry a product (macros are "
         "expanded by Table.expandEupsVariables; half of those are read from a real table file through Product.getTable), "
-        "a third run with --force over a generated oldEnviron/oldAliases; a case is "
+        "a third run with --force over a generated oldEnviron/oldAliases; plus an exhaustive small family (prior lists over "
+        "{a,b,x,empty} up to length 3 x 4 values x prepend/append x direction x flags) and an end-to-end family (a product "
+        "directory whose table of 1-5 path/set lines is set up with eups.app.setup(productRoot=dir) and unset again, each by a "
+        "fresh Eups, compared with the model of the table's lines run forward and backward); a case is "
         "non-trivial when at least one action changes the variable or is refused; distinct = distinct case digests")
 TRUSTED = ["CPython `re`, `str.split/join` on the patterns used by execute_envPrepend (exercised, not verified)",
            "values free of backslashes and newlines (re.sub template processing and `$` before a trailing newline are not modelled)"]
@@ -37,7 +40,8 @@ MIRRORS = [("python/eups/table.py", "Action.execute_envPrepend"), ("python/eups/
            ("python/eups/Eups.py", "Eups.unsetAlias"), ("python/eups/Product.py", "Product.stackRoot"),
            ("python/eups/Product.py", "Product.extraProductDir"), ("python/eups/utils.py", "dirEnvNameFor"),
            ("python/eups/Product.py", "Product.getTable"),
-           ("python/eups/table.py", "Table._rewrite"), ("python/eups/table.py", "Table._read")]   # synonyms, envUnset rule
+           ("python/eups/table.py", "Table._rewrite"), ("python/eups/table.py", "Table._read"),   # synonyms, envUnset rule
+           ("python/eups/table.py", "Action.execute")]      # the end-to-end family also runs Eups.setup / eups.app.setup (C01/C02's mirrors)
 
 DELIMS = [":", ":", ":", ":", ";", ",", " ", "|", "-", "::", ".", "+", "*", "?"]
 ATOMS = ["a", "b", "/x/y", "q", "c d", "/opt/p/1.0/bin", "zz", "$FOO/../lib", "$BAR"]   # brace-less $NAME is NOT a reference for eups
@@ -663,6 +667,174 @@ def corpus_cases():
     return out
 
 
+
+# ---- end to end: a table set up and unset through eups.app.setup (setup -r <dir>) -----------------------------------
+
+E2E_ATOMS = ["a", "b", "/x/y", "q", "c d", "/opt/p/1.0/bin", "zz"]
+E2E_TAILS = ["/bin", "/lib", "/share/man", ""]
+
+
+def gen_e2e(rng):
+    """A product directory with a table of 1-5 envPrepend/envAppend/envSet lines over V (path) and W (path or set), a
+    prior environment; the table is set up with `setup -r dir` and then unset, each by a fresh Eups."""
+    delim = rng.choice([":", ":", ":", ";", "::", "|"])
+    atoms = [a for a in E2E_ATOMS if delim not in a]
+    env = {"FOO": "/foo"} if rng.random() < 0.6 else {}
+    w_is_set = rng.random() < 0.4
+    lines = []
+    for _ in range(rng.randint(1, 5)):
+        r = rng.random()
+        if r < 0.45:
+            text, val = rng.choice(atoms), None
+            val = text
+        elif r < 0.8:
+            tail = rng.choice(E2E_TAILS)
+            text, val = "${PRODUCT_DIR}" + tail, ("dir", tail)
+        elif r < 0.9 and "FOO" in env:
+            text, val = "${FOO}/e", "/foo/e"
+        else:
+            text, val = "${UPS_DIR}/x", ("ups", "/x")
+        if w_is_set and rng.random() < 0.3:
+            lines.append({"op": "set", "var": "W", "value": text, "val": val, "delim": delim})
+        else:
+            var = "V" if (w_is_set or rng.random() < 0.7) else "W"
+            lines.append({"op": rng.choice(["prepend", "append"]), "var": var, "value": text, "val": val, "delim": delim})
+    for v in VARS:
+        r = rng.random()
+        if r < 0.2:
+            continue
+        pool = atoms + ["", "${X}/kept"] + [l["value"] for l in lines if isinstance(l["val"], str)]
+        env[v] = delim.join(rng.choice(pool) for _ in range(rng.randint(0, 5)))
+    return {"kind": "e2e", "env": env, "lines": lines, "delim": delim, "dirname": rng.choice(["prd", "loc dir", "p-1.0"])}
+
+
+def run_e2e(case):
+    """In a forked child: setup -r <dir> with one Eups, unsetup with another; the variables after each."""
+    def body():
+        common.import_eups()
+        root = common.scratch("c12e")
+        try:
+            common.mkstacks(root)
+            d = os.path.join(root, case["dirname"], "prd")
+            os.makedirs(os.path.join(d, "ups"))
+            acts = [dict(l, fwd=True, words=[]) for l in case["lines"]]
+            with open(os.path.join(d, "ups", "prd.table"), "w") as f:
+                f.write(table_text({"acts": acts}))
+            for k in ("V", "W", "FOO", "X", "PRD_DIR", "SETUP_PRD"):
+                os.environ.pop(k, None)
+            os.environ.update(case["env"])
+            M, app = common.eups_mod("Eups"), common.eups_mod("app")
+            U = common.eups_mod("utils")
+            U.stderr = U.stdwarn = U.stdinfo = U.stdok = io.StringIO()
+            out = {"dir": d, "eupsPath": os.environ.get("EUPS_PATH")}
+            with contextlib.redirect_stderr(io.StringIO()), contextlib.redirect_stdout(io.StringIO()):
+                try:
+                    cmds = app.setup("prd", productRoot=d, eupsenv=M.Eups(quiet=1))
+                    out["setup"] = "false" if "false" in cmds else {v: os.environ.get(v) for v in VARS}
+                    out["setup_dir"] = os.environ.get("PRD_DIR")
+                    cmds = app.setup("prd", eupsenv=M.Eups(quiet=1), fwd=False)
+                    out["unsetup"] = "false" if "false" in cmds else {v: os.environ.get(v) for v in VARS}
+                    out["unsetup_dir"] = os.environ.get("PRD_DIR")
+                except Exception as ex:  # noqa
+                    out["exc"] = type(ex).__name__ + ":" + str(ex)[:100]
+            return out
+        finally:
+            common.rmtree(root)
+    r = common.in_child(body)
+    return r[1] if r[0] == "ok" else {"exc": "child:" + str(r[1:3])}
+
+
+def run_e2e_chunk(cases):
+    return [run_e2e(c) for c in cases]
+
+
+def e2e_requests(case, out):
+    """Model: the table's lines as Product.getTable hands them out (fromFile), run forward, then forward + backward."""
+    d = out["dir"]
+    acts = [{"op": l["op"], "fwd": True, "var": l["var"], "value": l["value"], "delim": l["delim"]} for l in case["lines"]]
+    base = {"m": "path", "env": dict(case["env"], EUPS_PATH=out["eupsPath"]), "fromfile": True, "eupspath": out["eupsPath"],
+            "product": {"root": None, "dir": d, "extraDir": "", "extraExists": False, "name": "prd", "flavor": None,
+                        "version": None, "upsDir": os.path.join(d, "ups")}}
+    return [dict(base, acts=acts), dict(base, acts=acts + [dict(a, fwd=False) for a in acts])]
+
+
+def e2e_oracle(case, out):
+    """The property for a whole table, from the generator's description: after setup every prepended value stands in
+    front (the latest first), every appended one at the end (the latest last), the other elements keep the order of their
+    first occurrences; after unsetup exactly the table's values are gone; envSet sets / removes the variable."""
+    if "exc" in out:
+        yield ("no_crash", None, out["exc"])
+        return
+    d, delim = out["dir"], case["delim"]
+
+    def val(l):
+        v = l["val"]
+        return v if isinstance(v, str) else (d if v[0] == "dir" else os.path.join(d, "ups")) + v[1]
+    if out.get("setup_dir") != d or out.get("unsetup_dir") is not None:
+        yield ("product_dir_variable", None, "PRD_DIR %r after setup, %r after unsetup" % (out.get("setup_dir"), out.get("unsetup_dir")))
+    for var in VARS:
+        ls = [l for l in case["lines"] if l["var"] == var]
+        if any(delim in val(l) for l in ls if l["op"] != "set"):
+            continue
+        old = uniq(elems(case["env"].get(var), delim))
+        sets = [l for l in ls if l["op"] == "set"]
+        if isinstance(out["setup"], str) or isinstance(out["unsetup"], str):
+            yield ("no_error", None, "setup %r unsetup %r" % (out["setup"], out["unsetup"]))
+            return
+        after, back = out["setup"][var], out["unsetup"][var]
+        if sets and len(sets) == len(ls):
+            if after != val(sets[-1]):
+                yield ("envset_exact", None, "%s is %r after setup, expected %r" % (var, after, val(sets[-1])))
+            if back is not None:
+                yield ("unsetup_removes_variable", None, "%s is %r after unsetup" % (var, back))
+            continue
+        if sets:
+            continue            # envSet mixed with path commands on one variable: not specified as a whole
+        l_ = list(old)
+        for l in ls:
+            l_ = [x for x in l_ if x != val(l)]
+            l_ = [val(l)] + l_ if l["op"] == "prepend" else l_ + [val(l)]
+        if ls and elems(after, delim) != l_:
+            yield ("table_setup_order", None, "%s: %r, expected %r" % (var, elems(after, delim), l_))
+        if not ls and after != case["env"].get(var):
+            yield ("other_variable_untouched", None, "%s changed by setup: %r" % (var, after))
+        vals = [val(l) for l in ls]
+        want = [x for x in old if x not in vals]
+        if ls and elems(back, delim) != want:
+            yield ("table_unsetup_removes_exactly", None, "%s: %r, expected %r" % (var, elems(back, delim), want))
+
+
+def evaluate_e2e(ctx, cases):
+    nw = 4
+    chunks = [cases[i::nw] for i in range(nw)]
+    res = parallel_map(run_e2e_chunk, chunks, workers=nw)
+    outs = [None] * len(cases)
+    for k, ch in enumerate(res):
+        for j, v in enumerate(ch):
+            outs[k + j * nw] = v
+    reqs = []
+    for c, o in zip(cases, outs):
+        reqs += e2e_requests(c, o) if "dir" in o else []
+    answers = iter(ctx.lean.ask_many(reqs))
+    for c, o in zip(cases, outs):
+        ctx.hist("e2e")
+        ctx.hist("e2e-lines=%d" % len(c["lines"]))
+        ctx.case(key={"e2e": c["env"], "lines": c["lines"], "dirname": c["dirname"]}, nontrivial=True, sample=None)
+        if "dir" in o:
+            a1, a2 = next(answers), next(answers)
+            mo = {"setup": ({v: a1["env"].get(v) for v in VARS} if a1["out"] == "ok" else a1["out"]),
+                  "unsetup": ({v: a2["env"].get(v) for v in VARS} if a2["out"] == "ok" else a2["out"])}
+            io_ = {"setup": o.get("setup"), "unsetup": o.get("unsetup")}
+            if "exc" in o:
+                io_ = {"exc": o["exc"]}
+            if mo != io_:
+                ctx.disagree("e2e_setup_unsetup", c, io_, mo)
+        else:
+            mo = None
+        for clause, cls, detail in e2e_oracle(c, o):
+            ctx.fail(clause, c, o, mo, note=detail, finding=cls)
+
+
 CASE_KEYS = ("env", "acts", "specs", "delim", "product", "force", "noaction", "oldenv", "aliases", "oldaliases")
 
 
@@ -734,6 +906,7 @@ def run(ctx):
     ex = exhaustive_cases(*ctx.n((3, [":"]), (4, [":", "::", "|"])))
     ctx.hist("exhaustive", len(ex))
     evaluate(ctx, ex)
+    evaluate_e2e(ctx, [gen_e2e(ctx.rng) for _ in range(ctx.n(240, 2400))])
     done = 0
     while done < n and not ctx.out_of_time():
         k = min(batch, n - done)
@@ -750,6 +923,12 @@ def run(ctx):
 
 def replay(ctx, rp):
     c = rp["input"]
+    if c.get("kind") == "e2e":
+        o = run_e2e(c)
+        answers = ctx.lean.ask_many(e2e_requests(c, o)) if "dir" in o else []
+        fails = [{"clause": cl, "class": k, "detail": d} for cl, k, d in e2e_oracle(c, o)]
+        mo = [a.get("env", a.get("out")) for a in answers]
+        return {"input": c, "impl_output": o, "model_output": mo, "agree": None, "fails": fails}
     c.setdefault("roundtrip", False)
     r = common.in_child(run_impl_one, c)
     if r[0] != "ok":
